@@ -9,6 +9,16 @@
 // output per run:  "RUN ..." then one line of events in ticket order, tokens
 //     E.<p>.<i>  pipeline entered with message i of producer p      X.<p>.<i>.<seq>  sink received it
 //     L.<p>.<i>  "logger.locked" passed                              M.<p>.<i>  "own.locked" passed
+// signal modes ("signal", "signalmain", "baresignal", "baresignalmain"): behind the recording sink the pipeline has two
+// SignalSinks created in the main thread — one observed by a directly connected functor (= the emission itself, token
+//     S.<p>.<i>.<seq>), one added by the library's own sendToSignal(receiver, SIGNAL(...)) (string-based AutoConnection) to a
+// receiver QObject living in the main thread (token Q.<p>.<i>.<seq>, recorded when the receiver gets the message).  The N
+// producer threads log concurrently while the main thread pumps its event queue; in the "...main" variants the main thread
+// is producer number N as well (it logs and pumps in turn).
+// reset modes ("resetwhile", "bareresetwhile"): the pipeline starts ASYNCHRONOUS (moveToOwnThread); while the producers keep
+// logging and a backlog is queued another thread calls resetOwnThread(); the producers go on logging during the drain and
+// after it (synchronous again).  Handshakes only (no timing assumptions): phase 1 free, phase 2 starts when the reset is
+// about to be called, phase 3 starts when resetOwnThread() has returned.
 #ifdef VERIF_HEADER_ONLY
 #include "qtlogger.h"
 #else
@@ -78,8 +88,11 @@ extern "C" void qtlogger_verif_point(const char *name)
     if (!strcmp(name, "logger.locked")) TSAN_ACQ(&g_tokL);
     else if (!strcmp(name, "own.locked")) TSAN_ACQ(&g_tokM);
     else if (!strcmp(name, "logger.processed")) TSAN_REL(&g_tokL);
-    if (tl_prod < 0)
+    if (tl_prod < 0) {
+        // the worker thread / the thread inside resetOwnThread(): no producer identity, but the schedule is perturbed there too
+        if (!strncmp(name, "worker.", 7) || !strncmp(name, "reset.", 6)) perturb();
         return;
+    }
     if (!strcmp(name, "logger.locked"))
         record('L', tl_prod, tl_idx, 0);
     else if (!strcmp(name, "own.locked"))
@@ -109,6 +122,15 @@ struct RandomWork : Handler {   // a handler of random duration
         return true;
     }
 };
+struct SlowWork : Handler {     // a handler that takes 50..350 us: lets a backlog build up in front of a worker thread
+    bool process(LogMessage &) override { usleep(50 + tl_rng() % 300); return true; }
+};
+static void record_msg(char kind, const LogMessage &m)
+{
+    int p, i; parse(m, p, i);
+    QVariant v = m.attribute("seq_number");
+    record(kind, p, i, v.isValid() ? v.toInt() : -1);
+}
 struct RecSink : Sink {
     void send(const LogMessage &m) override
     {
@@ -187,12 +209,13 @@ int main(int argc, char **argv)
         g_stall_ms = 0;
         is >> mode >> n >> per >> seed >> g_perturb >> dup >> g_stall_ms;
         if (mode.empty()) continue;
-        g_events.assign((size_t)n * per * 6 + 16, Ev { '?', 0, 0, 0 });
+        g_events.assign((size_t)(n + 1) * per * 10 + 64, Ev { '?', 0, 0, 0 });
         g_ticket = 0;
         std::atomic<int> ready{0};
+        int nbar = n;            // threads that start together (n + 1 when the main thread produces too)
         auto producer = [&](int p, std::function<void(int, int)> send_one) {
             tl_prod = p; tl_rng.seed(seed * 7919u + p * 104729u + 17);
-            ready++; while (ready.load() < n) std::this_thread::yield();     // start together
+            ready++; while (ready.load() < nbar) std::this_thread::yield();     // start together
             for (int i = 0; i < per; i++) { tl_idx = i; send_one(p, i); if (tl_rng() % 8 == 0) perturb(); }
             tl_prod = -1;
         };
@@ -209,7 +232,7 @@ int main(int argc, char **argv)
             for (long k = 0; k < cnt; k++) {
                 const Ev &e = g_events[k];
                 o << e.kind << "." << e.prod << "." << e.idx;
-                if (e.kind == 'X') o << "." << e.seq;
+                if (e.kind == 'X' || e.kind == 'S' || e.kind == 'Q') o << "." << e.seq;
                 o << " ";
             }
             std::cout << o.str() << std::endl;
@@ -280,6 +303,84 @@ int main(int argc, char **argv)
                 });
             for (auto &t : ths) t.join();
             Logger::restorePreviousMessageHandler();
+#ifndef VERIF_HEADER_ONLY      // (SignalSink needs its moc unit: not in the single-header ThreadSanitizer build)
+        } else if (mode == "signal" || mode == "signalmain" || mode == "baresignal" || mode == "baresignalmain") {
+            const bool bare = mode.compare(0, 4, "bare") == 0, withMain = mode.size() > 4 && mode.compare(mode.size() - 4, 4, "main") == 0;
+            Logger lg;
+            OwnThreadHandler<SimplePipeline> h;
+            SimplePipeline &pl = bare ? static_cast<SimplePipeline &>(h) : static_cast<SimplePipeline &>(lg);
+            if (bare) build(h, dup); else build(lg, dup);
+            // (1) a SignalSink living in the main thread, observed by a DIRECTLY connected functor: the emission itself
+            auto direct = SignalSinkPtr::create();
+            QObject::connect(direct.data(), &SignalSink::message, [](const LogMessage &m) { record_msg('S', m); });
+            pl.append(direct.staticCast<Sink>());
+            // (2) the library's sendToSignal(): string-based AutoConnection to a receiver QObject living in the main thread
+            // (the receiver is a QObject with a signal of the right signature; what it receives is observed by a functor
+            // directly connected to that signal, i.e. run in the receiver's thread at the moment of reception)
+            SignalSink receiver;
+            QObject::connect(&receiver, &SignalSink::message, [](const LogMessage &m) { record_msg('Q', m); });
+            pl.sendToSignal(&receiver, SIGNAL(message(QtLogger::LogMessage)));
+            if (!bare) lg.installMessageHandler();
+            auto send = [&](int p, int i) {
+                if (bare) {
+                    QMessageLogContext ctx("signal.cpp", i, "void signalled()", "default");
+                    LogMessage m((i & 1) ? QtWarningMsg : QtInfoMsg, ctx, QString::number(p) + QLatin1Char(' ') + QString::number(i));
+                    h.process(m);
+                } else if (i & 1) qWarning("%d %d", p, i); else qInfo("%d %d", p, i);
+            };
+            std::atomic<int> done{0};
+            nbar = n + (withMain ? 1 : 0);
+            for (int p = 0; p < n; p++)
+                ths.emplace_back([&, p] { producer(p, send); done++; });
+            if (withMain) {          // the main thread (where both sinks and the receiver live) logs too, and pumps in turn
+                tl_prod = n; tl_rng.seed(seed * 7919u + n * 104729u + 17);
+                ready++; while (ready.load() < nbar) std::this_thread::yield();
+                for (int i = 0; i < per; i++) {
+                    tl_idx = i; send(n, i);
+                    unsigned r = tl_rng() % 8;
+                    if (r < 2) QCoreApplication::processEvents(); else if (r == 2) perturb();
+                }
+                tl_prod = -1;
+            }
+            while (done.load() < n) { QCoreApplication::processEvents(); usleep(100); }      // the running event loop
+            for (auto &t : ths) t.join();
+            for (int k = 0; k < 4; k++) { QCoreApplication::sendPostedEvents(); QCoreApplication::processEvents(); }
+            if (!bare) Logger::restorePreviousMessageHandler();
+#endif
+        } else if (mode == "resetwhile" || mode == "bareresetwhile") {
+            const bool bare = mode == "bareresetwhile";
+            Logger lg;
+            OwnThreadHandler<SimplePipeline> h;
+            OwnThreadHandler<SimplePipeline> &oh = bare ? h : static_cast<OwnThreadHandler<SimplePipeline> &>(lg);
+            oh << QSharedPointer<EnterProbe>::create() << QSharedPointer<SlowWork>::create() << SeqNumberAttrPtr::create();
+            if (dup) oh << DuplicateFilterPtr::create();
+            oh << QSharedPointer<RandomWork>::create() << QSharedPointer<RecSink>::create();
+            oh.moveToOwnThread();
+            if (!bare) lg.installMessageHandler();
+            const int a = per * 2 / 5, b = std::max(a, per * 4 / 5);
+            std::atomic<int> posted{0};
+            std::atomic<bool> reset_started{false}, reset_done{false};
+            for (int p = 0; p < n; p++)
+                ths.emplace_back(producer, p, [&](int p, int i) {
+                    if (i == a) while (!reset_started.load()) usleep(50);
+                    if (i == b) while (!reset_done.load()) usleep(100);
+                    if (i >= a && i < b) usleep(tl_rng() % 300);       // paced: spans the drain
+                    if (bare) {
+                        QMessageLogContext ctx("reset.cpp", i, "void resetting()", "default");
+                        LogMessage m((i & 1) ? QtWarningMsg : QtInfoMsg, ctx, QString::number(p) + QLatin1Char(' ') + QString::number(i));
+                        h.process(m);
+                    } else if (i & 1) qWarning("%d %d", p, i); else qInfo("%d %d", p, i);
+                    posted++;
+                });
+            std::thread resetter([&] {
+                while (posted.load() < n * a) usleep(50);      // every producer has finished phase 1: a backlog is queued
+                reset_started = true;
+                oh.resetOwnThread();
+                reset_done = true;
+            });
+            for (auto &t : ths) t.join();
+            resetter.join();
+            if (!bare) Logger::restorePreviousMessageHandler();
         } else if (mode == "logger" || mode == "mixed" || mode == "fatal" || mode == "mixed+fatal") {
             Logger lg;
             build(lg, dup);
